@@ -408,6 +408,17 @@ class Check:
         os.replace(tmp, path)
 
 
+THOROUGH_SCALE = int(os.environ.get('VERIF_THOROUGH_SCALE', '6'))
+
+
+def budget(chk, full, quick_n, full_n):
+    """number of generated cases: quick tier on an unchanged tree -> quick_n; quick tier when the anchored source drifted or
+    an obligation broke -> full_n; thorough tier -> full_n * THOROUGH_SCALE"""
+    if chk.tier == 'thorough':
+        return full_n * THOROUGH_SCALE
+    return full_n if full else quick_n
+
+
 def standard_build(chk, need_model=True):
     """Run the build for a check and register broken obligations."""
     b = build(chk.prop_id, need_model=need_model)
